@@ -1,5 +1,6 @@
 import SafeC.Dispatch
 import SafeC.Models.Os
+import SafeC.Models.Time
 /-!
 # name → model dispatch, os-string family (argument positions as in `tools/fnspec.py`)
 -/
@@ -23,6 +24,12 @@ def dispatchOs (fn : String) (c : Ctx) : Option (Prog Out) :=
   | "strerror_s" => do
     let d ← c.p 0; let m ← c.n 1; let e ← c.n 2; let b ← c.b 3; let msg ← c.p 4; let dots ← c.p 5
     pure (errOut (strerror_s c.cfg d m e b msg dots))
+  | "asctime_s" => do
+    let d ← c.p 0; let m ← c.n 1; let tm ← c.p 2; let b ← c.b 3; let txt ← c.p 4
+    pure (do let r ← asctime_s c.cfg d m tm b txt; pure { ret := showCode r })
+  | "ctime_s" => do
+    let d ← c.p 0; let m ← c.n 1; let t ← c.p 2; let b ← c.b 3; let txt ← c.p 4
+    pure (do let r ← ctime_s c.cfg d m t b txt; pure { ret := showCode r })
   | "strerrorlen_s" => do
     let e ← c.n 0; let msg ← c.p 1
     pure (errOut (strerrorlen_s e msg))
